@@ -1,7 +1,8 @@
 (* C02 -- Exact finite-sample double robustness of AIPTW and TMLE (AIPSW: see the generalize development). *)
 From Coq Require Import QArith List.
 From Zepid Require Import Base.QSum Base.QUtil Base.Rows Proofs.RowsProofs Model.Estimators Proofs.EstimatorsProofs
-     Model.Generalize Proofs.GeneralizeProofs.
+     Model.Generalize Proofs.GeneralizeProofs GenProofs.GenProofs_gener.
+From ZepidGen Require Import Gen_gener_Q.
 Import ListNotations.
 Open Scope Q_scope.
 
@@ -66,6 +67,13 @@ Example C02_nonvacuous :
   aipw_mean aipw_y1 witness_rows == 3 # 4 /\ std TAll true witness_rows == 5 # 6.
 Proof. vm_compute. split; reflexivity. Qed.
 
+(* the estimate AIPSW.fit computes in the CURRENT source (translated on every run) is the aipsw_risk of the theorems above *)
+Theorem C02_src_aipsw_fit : forall c junk a l,
+  (match gen c, a with
+   | true, true => aipsw_fit_gen_r1_Q | true, false => aipsw_fit_gen_r0_Q
+   | false, true => aipsw_fit_trn_r1_Q | false, false => aipsw_fit_trn_r0_Q end) (aview c junk l) == aipsw_risk c a l.
+Proof. exact gen_aipsw_fit. Qed.
+
 Print Assumptions C02_aipw_outcome_saturated.
 Print Assumptions C02_aipw_treatment_saturated.
 Print Assumptions C02_aipw_ya_is_translated.
@@ -75,3 +83,4 @@ Print Assumptions C02_both_wrong_moves.
 Print Assumptions C02_aipsw_outcome_saturated.
 Print Assumptions C02_aipsw_weights_saturated_unstabilized.
 Print Assumptions C02_aipsw_stabilized_refuted.
+Print Assumptions C02_src_aipsw_fit.
